@@ -8,6 +8,7 @@ pub mod c13;
 pub mod c16;
 pub mod c17;
 pub mod c18;
+pub mod hostile_props;
 pub mod mux;
 
 pub fn run(args: &Args) -> i32 {
@@ -21,6 +22,7 @@ pub fn run(args: &Args) -> i32 {
         "C09" => c09::run(args),
         "C12" => c12::run(args),
         "C18" => c18::run(args),
+        "C06" | "C07" | "C08" => hostile_props::run(args),
         other => {
             eprintln!("unknown property {}", other);
             2
